@@ -83,6 +83,10 @@ package datastore
 //@   loop 0 invariant snapshot_priority_is_content_priority [C05 C02]: called(AddIntentContent) ==>
 //@            callarg(AddIntentContent, 0, 3) == callres(GetFirstPriorityValue, 0) && callarg(GetFirstPriorityValue, 0, 0) == callarg(AddIntentContent, 0, 4) &&
 //@            callarg(AddIntentContent, 0, 4) == callres(LoadIntendedStoreOwnerData, 0, 0) && callarg(AddIntentContent, 0, 2) == 1
+// for every intent of the transaction (rollback transactions included) the stored content is recorded: as the old
+// version in the transaction, and for the removal of entries stored under a former priority
+//@   loop 0 invariant every_intent_is_snapshotted [C05 C02]: exstr(k, $visited[k]) ==> called(AddIntentContent) && called(LoadIntendedStoreOwnerData)
+//@   loop 0 invariant former_content_is_kept_for_the_cleanup [C05 C02]: oldIntentContents != nil && allstr(k, $visited[k] ==> present(oldIntentContents, $map[k].name))
 //@   loop 1 invariant ntrace() == n0 && inv_Transaction(transaction) && vrOK(validationResult)
 //@   loop 2 invariant ntrace() == n0 && inv_Transaction(transaction) && vrOK(validationResult)
 //@   loop 3 invariant inv_Transaction(transaction) && $map == transaction.newIntents && !dryRun && !anyErrors(validationResult)
